@@ -953,6 +953,166 @@ theorem numberBody_digits (a : Archive) (ip dp : Text) (value : Dec) (body : Tex
   rw [hbody, h1, h2]
   exact ⟨hi.digits, hd.pad⟩
 
+/-! ### the sign -/
+
+/-- the minus signs of a text. -/
+def minusSigns (t : Text) : Text := t.filter (· == '-')
+
+theorem minusSigns_append (a b : Text) : minusSigns (a ++ b) = minusSigns a ++ minusSigns b := by
+  simp [minusSigns]
+
+theorem minusSigns_none (t : Text) (h : ∀ c ∈ t, c ≠ '-') : minusSigns t = [] := by
+  unfold minusSigns
+  rw [List.filter_eq_nil_iff]
+  intro c hc; simp [h c hc]
+
+theorem digit_ne_minus {c : Char} (h : isDigit c = true) : c ≠ '-' := by
+  intro e; subst e; revert h; decide
+
+theorem minusSigns_digits (t : Text) (h : ∀ c ∈ t, isDigit c = true) : minusSigns t = [] :=
+  minusSigns_none t (fun c hc => digit_ne_minus (h c hc))
+
+theorem minusSigns_group3 (t : Text) (h : ∀ c ∈ t, isDigit c = true) : minusSigns (group3 t) = [] := by
+  apply minusSigns_none
+  intro c hc
+  rcases group3_mem t c hc with h1 | h1
+  · exact digit_ne_minus (h c h1)
+  · subst h1; decide
+
+theorem minusSigns_rjust (w : Nat) (t : Text) : minusSigns (rjust w t) = minusSigns t := by
+  unfold rjust
+  rw [minusSigns_append, minusSigns_none _ (fun c hc => by rw [(List.mem_replicate.mp hc).2]; decide)]
+  rfl
+
+theorem minusSigns_sign {sign : Text} (h : IsSign sign) : minusSigns sign = sign := by
+  rcases h with h | h <;> subst h <;> decide
+
+/-- the integer part carries exactly the sign text as its minus signs, unless it is the all-blank rendering of a value
+    that rounds to zero with no decimals (first branch), where the sign text is empty anyway. -/
+theorem integerText_minus (thousands : Bool) (pad dpad : Pad) (width nd integer : Nat) (decimalStr sign : Text)
+    (hs : IsSign sign) (h0 : integer = 0 ∧ nd = 0 → sign = []) :
+    minusSigns (integerText thousands pad dpad width nd integer decimalStr sign) = sign := by
+  have hss := minusSigns_sign hs
+  have hn := natStr_all_digits integer
+  unfold integerText
+  split
+  · rename_i h
+    rw [minusSigns_rjust, h0 ⟨h.1, h.2.2⟩]; rfl
+  split
+  · exact hss
+  split
+  · rw [minusSigns_rjust]; exact hss
+  split
+  · split
+    · obtain ⟨k, hk⟩ := zeroPadGrouped_eq width width (natStr integer)
+      rw [hk, minusSigns_append, hss, minusSigns_group3 _ (digits_zeros_natStr k integer)]; simp
+    · rw [minusSigns_append, hss, minusSigns_digits _ (zfill_all_digits _ _ hn)]; simp
+  split
+  · split
+    · rw [minusSigns_rjust, minusSigns_append, hss, minusSigns_group3 _ hn]; simp
+    · rw [minusSigns_rjust, minusSigns_append, hss, minusSigns_digits _ hn]; simp
+  split
+  · rw [minusSigns_append, hss, minusSigns_group3 _ hn]; simp
+  · rw [minusSigns_append, hss, minusSigns_digits _ hn]; simp
+
+theorem DecShape.noMinus {dt decimal : Text} {nd : Nat} (h : DecShape dt decimal nd) : minusSigns dt = [] := by
+  rcases h.head with h1 | ⟨r, h1, h2⟩
+  · rw [h1]; rfl
+  · rw [h1]
+    apply minusSigns_none
+    intro c hc
+    rcases List.mem_cons.mp hc with h3 | h3
+    · subst h3; decide
+    · rcases h2 c h3 with h4 | h4
+      · exact digit_ne_minus h4
+      · subst h4; decide
+
+theorem rstripZeros_replicate (k : Nat) : rstripZeros (List.replicate k '0') = [] := by
+  unfold rstripZeros
+  rw [List.reverse_replicate]
+  have : (List.replicate k '0').dropWhile (· == '0') = [] := by
+    induction k with
+    | zero => rfl
+    | succ k ih => rw [List.replicate_succ, List.dropWhile_cons]; simp [ih]
+  rw [this]; rfl
+
+/-- the decimals are all zeros exactly when the fraction part of the rounded value is zero. -/
+theorem roundedParts_decimal_zero (value : Dec) (nd : Nat) :
+    rstripZeros (roundedParts value nd).2 = [] ↔ scaleTo value nd % 10 ^ nd = 0 := by
+  obtain ⟨hlen, hdig, hread⟩ := roundedParts_decimal value nd
+  constructor
+  · intro h
+    have hspec := (rstripZeros_spec (roundedParts value nd).2).1
+    rw [h, List.nil_append, hlen] at hspec
+    simp only [List.length_nil, Nat.sub_zero] at hspec
+    rw [hspec] at hread
+    have : readDigits (List.replicate nd '0') 0 = some 0 := by
+      have := readDigits_zeros nd [] 0
+      simpa [readDigits] using this
+    rw [this] at hread
+    injection hread with hread
+    exact hread.symm
+  · intro h
+    have : (roundedParts value nd).2 = List.replicate nd '0' := by
+      unfold roundedParts
+      simp only [h]
+      split
+      · rename_i h0; subst h0; rfl
+      · rename_i h0
+        have : natStr 0 = ['0'] := natStr_zero
+        rw [this]
+        unfold zfill
+        obtain ⟨j, rfl⟩ : ∃ j, nd = j + 1 := ⟨nd - 1, by omega⟩
+        simp only [List.length_singleton, Nat.add_sub_cancel]
+        rw [List.replicate_succ']
+    rw [this]; exact rstripZeros_replicate nd
+
+/-- **the sign**: the number text holds one minus sign exactly when the value is negative and is not displayed as zero
+    (its rounding to the decimals shown is not zero); otherwise none. -/
+theorem numberBody_sign (a : Archive) (ip dp : Text) (value : Dec) (body : Text)
+    (h : numberBody a ip dp value = .ok body) :
+    minusSigns body = if value.isNeg = true ∧ scaleTo value dp.length ≠ 0 then ['-'] else [] := by
+  obtain ⟨pad, w, hpw, _⟩ := intPadWidth_ok a ip (scaleTo value dp.length / 10 ^ dp.length)
+  obtain ⟨hdl, hdd, _⟩ := roundedParts_decimal value dp.length
+  have hz := roundedParts_decimal_zero value dp.length
+  have hm : (scaleTo value dp.length / 10 ^ dp.length ≠ 0 ∨ rstripZeros (roundedParts value dp.length).2 ≠ []) ↔
+      scaleTo value dp.length ≠ 0 := by
+    have hdm := Nat.div_add_mod (scaleTo value dp.length) (10 ^ dp.length)
+    have hpos : 0 < 10 ^ dp.length := Nat.pow_pos (by omega)
+    constructor
+    · rintro (h1 | h1)
+      · intro h0; apply h1; rw [h0]; simp
+      · intro h0; apply h1; rw [hz, h0]; simp
+    · intro h1
+      by_cases hq : scaleTo value dp.length / 10 ^ dp.length = 0
+      · right; intro h2
+        rw [hz] at h2
+        rw [hq, h2] at hdm
+        simp at hdm; exact h1 hdm.symm
+      · exact Or.inl hq
+  unfold numberBody at h
+  have hrp : (roundedParts value dp.length).1 = scaleTo value dp.length / 10 ^ dp.length := rfl
+  simp only [hrp, hpw, bind, Except.bind, pure, Except.pure] at h
+  injection h with h
+  rw [← h, minusSigns_append]
+  have hdec := (decimalText_shape (decPad a dp) (removeCommas ip).length dp.length _ hdl hdd).noMinus
+  rw [hdec, List.append_nil]
+  have hS : ∀ (p : Prop) [Decidable p], IsSign (if p then ['-'] else []) := by
+    intro p _; by_cases h : p
+    · rw [if_pos h]; exact Or.inr rfl
+    · rw [if_neg h]; exact Or.inl rfl
+  rw [integerText_minus _ _ _ _ _ _ _ _ (hS _)]
+  · by_cases hc : value.isNeg = true ∧ scaleTo value dp.length ≠ 0
+    · rw [if_pos hc, if_pos ⟨hc.1, hm.mpr hc.2⟩]
+    · rw [if_neg hc, if_neg (fun hh => hc ⟨hh.1, hm.mp hh.2⟩)]
+  · rintro ⟨hi0, hnd0⟩
+    rw [if_neg]
+    rintro ⟨_, h1 | h1⟩
+    · exact h1 hi0
+    · apply h1
+      have : (roundedParts value dp.length).2 = [] := List.length_eq_zero_iff.mp (by rw [hdl]; exact hnd0)
+      rw [this]; rfl
+
 /-! ### dispatch -/
 
 /-- `Cell._custom_format` raises only a KeyError, and only when the selected format carries a custom uid that the
